@@ -3,9 +3,10 @@
 import json, os
 HERE = os.path.dirname(os.path.dirname(os.path.abspath(__file__)))
 
-PROOF_L = ('the list and mapping differ/patcher chains (29 real functions and lemmas: builder append, diff_from_lcs, brute-force LCS, diff_lists, '
-           'compute_diff_from_snakes, patch_list; MappingDiffBuilder, diff_dicts, patch_dict) are PROVED for all inputs from the current source by '
-           'contract-based VCs (pyvc -> z3/cvc5)')
+PROOF_L = ('the list and mapping differ/patcher chains and the type dispatchers (40 real functions and lemmas: builder append, diff_from_lcs, brute-force LCS, '
+           'snake computation incl. the multilevel refinement, diff_lists, compute_diff_from_snakes, patch_list; MappingDiffBuilder, diff_dicts, patch_dict; '
+           'diff, patch, validate_diff; the round trip patch(a, diff(a, b)) == b as a client-code lemma over the two contracts) are PROVED for all inputs from '
+           'the current source by contract-based VCs (pyvc -> z3/cvc5), under realisable table contracts on the registered differs/predicates')
 TRUST = ('Trusted: pyvc encoding assumptions (listed in evidence), SMT solvers, assumed contracts named in evidence, table contracts '
          'differs_ok / pred_exact as preconditions; bounded parts explore the stated small scope only and are never counted as proved.')
 TECH_MIX = 'contract-based deductive verification (AST->VC->SMT) of the real functions + bounded run-time contracts'
@@ -24,7 +25,7 @@ CLAIMS = {
         'output/mime/attachment differs, string flattening) and the nbdiff --out / nbpatch file interface are covered by a BOUNDED run-time contract with an '
         'independent implementation of the documented diff format as second oracle. Hence level other, not proof.'),
  'C02': dict(category='other', design_ref='DESIGN.md 5/C02', note=TRUST, technique=TECH_MIX,
-   text='Mixed: ' + PROOF_L + '; the string differ/patcher and the type dispatchers `diff` / `patch` are covered only by a BOUNDED run-time contract on the public API '
+   text='Mixed: ' + PROOF_L + '; the string differ/patcher (assumed contracts) are covered only by a BOUNDED run-time contract on the public API '
         'against an independent implementation of the documented format. Hence level other, not proof.'),
  'C03': bounded('Run-time contract "merge_notebooks returns normally" over notebook triples x strategy tables x text-merge helpers (git / diff3 / built-in, selected via PATH).', 'DESIGN.md 5/C03'),
  'C04': bounded('Run-time contract "merged notebook validates against nbformat\'s schema file for its declared minor" (jsonschema directly, not nbformat.validate) over the C03 space incl. mixed minors.', 'DESIGN.md 5/C04'),
@@ -34,8 +35,8 @@ CLAIMS = {
  'C09': bounded('Ordering (prefix_before), merge/diff schema validation, JSON round trip, apply_decisions==merged, and choose-local / choose-remote reproduction under the web tool strategy.', 'DESIGN.md 5/C09'),
  'C10': bounded('Frame obligations (no shared mutable default / module state behind the strategy tables, discharged syntactically on the current sources) + use-x strategies (uniform and mixed merge/input/output, transients on/off) against the open merge with every conflicted decision re-labelled to the side its path selects; no-fabricated-line clause.', 'DESIGN.md 5/C10'),
  'C11': dict(category='other', design_ref='DESIGN.md 5/C11', note=TRUST, technique=TECH_MIX,
-   text='Mixed: wf_seq(result, len(a)) is a discharged postcondition of diff_from_lcs, diff_sequence_bruteforce, diff_sequence and diff_lists, and builder order of '
-        'SequenceDiffBuilder.append (all inputs); deep well-formedness, schema validity and JSON round trip of every generic/notebook diff and of the diffs inside merge '
+   text='Mixed: wf_seq / wf_map are discharged postconditions of every list / dict differ under contract, and deep well-formedness wf_v(a, diff(a, b)) (every nested '
+        'patch diff well formed for the item it patches) is a discharged postcondition of the dispatcher diff (all inputs; strings assumed); for notebook diffs and the diffs inside merge decisions deep well-formedness, schema validity and JSON round trip of every generic/notebook diff and of the diffs inside merge '
         'decisions are covered by a BOUNDED run-time contract.'),
  'C13': bounded('Before/after canonical-JSON snapshot of every argument of diff_notebooks, patch_notebook, merge_notebooks, apply_decisions and pretty_print_* (incl. valid diffs with shuffled mapping entries).', 'DESIGN.md 5/C13'),
  'C14': dict(category='other', design_ref='DESIGN.md 5/C14, A4', note=TRUST if False else 'Trusted: Tier E value abstraction and effect table (listed in evidence); the bounded part explores the stated small scope only.',
